@@ -56,9 +56,9 @@ def ob(function, clause, label, status, **kw):
     return d
 
 
-def _eval_clause(fn, *args):
+def _eval_clause(fn, *args, transc=()):
     """Evaluate a clause lambda on proxies.  Returns (z3 bool term, extra axioms)."""
-    ec = EvalCtx()
+    ec = EvalCtx(transc=transc)
     with activate(ec):
         v = fn(*args)
     if isinstance(v, (bool,)) or type(v).__name__ == "bool_":
@@ -167,13 +167,13 @@ def check_function(function, setup, call, clauses, *, mode, label="", bounded=Fa
                     if p.outcome != "ret":
                         continue
                     ns_, res = p.value
-                    goal, ax = _eval_clause(cl.fn, ns_, res)
+                    goal, ax = _eval_clause(cl.fn, ns_, res, transc=p.transc)
                 elif cl.kind == "raises":
                     if p.outcome == "ret":
-                        goal, ax = _eval_clause(cl.fn, p.value[0])
+                        goal, ax = _eval_clause(cl.fn, p.value[0], transc=p.transc)
                         goal = z3.Not(goal)
                     elif isinstance(p.value, cl.exc):
-                        goal, ax = _eval_clause(cl.fn, p.ns)
+                        goal, ax = _eval_clause(cl.fn, p.ns, transc=p.transc)
                     else:
                         continue
                 elif cl.kind == "always_raises":
